@@ -155,7 +155,7 @@ WALLET_ASSUME = COMMON_ASSUME + [
 def c18(tier):
     hs = [w_h('VHarnessSelect', 'offline selection kernel: 1..3 held proofs of 2^0..2^4 on one keyset, ppk in {0,100,250,500,1000,2000}, every amount in 1..balance', must_reach=('selected', 'selection-failed')),
           w_h('VHarnessSend', 'Send end to end (selection, swap at the fake mint, change): 1..2 held proofs of 2^0..2^3 on active/inactive keysets, every ppk pair of the set, every amount, fees on/off', must_reach=('sent',), timeout_s=900),
-          w_h('VHarnessSendMixed3', 'Send end to end: exactly 3 held proofs of 2^0..2^2, each on the active or the inactive keyset, ppk in {0,1000} per keyset, every amount, fees on/off', must_reach=('sent',), timeout_s=1500)]
+          w_h('VHarnessSendMixed3', 'Send end to end: exactly 3 held proofs of 2^0..2^2, the first on the inactive keyset and the other two on the active one, ppk in {0,1000} per keyset, every amount, fees on/off', must_reach=('sent',), timeout_s=1500)]
     if tier == 'thorough':
         hs += [w_h('VHarnessSelectWide', 'selection kernel: 1..4 proofs of 2^0..2^5', must_reach=('selected',), timeout_s=3000),
                w_h('VHarnessSendWide', 'Send end to end: 1..3 proofs of 2^0..2^4', must_reach=('sent',), timeout_s=3000)]
@@ -181,7 +181,7 @@ def c17(tier):
     return more + [w_h('VHarnessSendC17', 'send: 1..2 held proofs of 2^0..2^2 on the active / inactive keyset, 100 ppk on both, amount symbolic, fees included or not: conservation and exact fee payment', must_reach=('sent', 'send-failed')),
             w_h('VHarnessWalletReceive', 'receive a token of the own mint: 1..2 proofs of 2^0..2^3, ppk in {0,100,1000}, stored counter symbolic < 2^30', must_reach=('received', 'receive-failed')),
             w_h('VHarnessWalletReclaim', 'reclaim / remove-spent: 1..2 pending proofs of 2^0..2^2, each handed out or locked in a melt, each UNSPENT / SPENT / PENDING at the mint, ppk in {0,1000}', must_reach=('reconciled-0', 'reconciled-1')),
-            w_h('VHarnessWalletMelt', 'melt: 1..2 held proofs of 2^0..2^3, amount 1..8, reserve 0..2, ppk in {0,100,1000}, outcome paid/pending/failed, pending then settled either way', must_reach=('melt-outcome-0', 'melt-outcome-1', 'melt-outcome-2', 'melt-resolved')),
+            w_h('VHarnessWalletMeltLost', 'melt: 1..2 held proofs of 2^0..2^2, amount 1..6, reserve 0..1, ppk in {0,1000}, outcome paid/pending/failed, pending then settled either way; with or without a transport fault on POST /v1/melt/bolt11 (request lost before the mint saw it / response lost after the mint acted, each payment outcome), then a state check and, if still unpaid, a retry', must_reach=('lost-melt-reconciled', 'lost-melt-retried', 'melt-outcome-0', 'melt-outcome-1', 'melt-outcome-2', 'melt-resolved')),
             w_h('VHarnessWalletMint', 'mint tokens', must_reach=('minted',)),
             w_h('VHarnessWalletMintThenSend', 'holding one deterministic proof of 8: send 1..5 through a swap', must_reach=('sent',))]
 def c20(tier):
